@@ -45,8 +45,11 @@ impl<'a> vcf::variant::record::info::field::value::array::Values<'a, i32> for Va
 }
 
 impl<'a> vcf::variant::record::samples::series::value::array::Values<'a, i32> for Values<'a, i8> {
+    // End-of-vector padding is not a value (see `iter`).
     fn len(&self) -> usize {
-        self.src.len()
+        self.iter()
+            .filter(|value| !matches!(value, Int8::EndOfVector))
+            .count()
     }
 
     fn iter(&self) -> Box<dyn Iterator<Item = io::Result<Option<i32>>> + '_> {
@@ -84,8 +87,11 @@ impl<'a> vcf::variant::record::info::field::value::array::Values<'a, i32> for Va
 }
 
 impl<'a> vcf::variant::record::samples::series::value::array::Values<'a, i32> for Values<'a, i16> {
+    // End-of-vector padding is not a value (see `iter`).
     fn len(&self) -> usize {
-        self.src.len() / mem::size_of::<i16>()
+        self.iter()
+            .filter(|value| !matches!(value, Int16::EndOfVector))
+            .count()
     }
 
     fn iter(&self) -> Box<dyn Iterator<Item = io::Result<Option<i32>>> + '_> {
@@ -123,8 +129,11 @@ impl<'a> vcf::variant::record::info::field::value::array::Values<'a, i32> for Va
 }
 
 impl<'a> vcf::variant::record::samples::series::value::array::Values<'a, i32> for Values<'a, i32> {
+    // End-of-vector padding is not a value (see `iter`).
     fn len(&self) -> usize {
-        self.src.len() / mem::size_of::<i32>()
+        self.iter()
+            .filter(|value| !matches!(value, Int32::EndOfVector))
+            .count()
     }
 
     fn iter(&self) -> Box<dyn Iterator<Item = io::Result<Option<i32>>> + '_> {
@@ -162,8 +171,11 @@ impl<'a> vcf::variant::record::info::field::value::array::Values<'a, f32> for Va
 }
 
 impl<'a> vcf::variant::record::samples::series::value::array::Values<'a, f32> for Values<'a, f32> {
+    // End-of-vector padding is not a value (see `iter`).
     fn len(&self) -> usize {
-        self.src.len() / mem::size_of::<f32>()
+        self.iter()
+            .filter(|value| !matches!(value, Float::EndOfVector))
+            .count()
     }
 
     fn iter(&self) -> Box<dyn Iterator<Item = io::Result<Option<f32>>> + '_> {
@@ -173,5 +185,36 @@ impl<'a> vcf::variant::record::samples::series::value::array::Values<'a, f32> fo
             Float::EndOfVector => None,
             Float::Reserved(_) => Some(Err(io::Error::from(io::ErrorKind::InvalidData))),
         }))
+    }
+}
+
+#[cfg(test)]
+mod tests {
+    use vcf::variant::record::samples::series::value::array::Values as _;
+
+    use super::*;
+
+    #[test]
+    fn test_len_with_end_of_vector_padded_sample_values() {
+        fn t<'a, N, T>(values: Values<'a, N>, expected: usize)
+        where
+            Values<'a, N>: vcf::variant::record::samples::series::value::array::Values<'a, T>,
+        {
+            assert_eq!(values.len(), expected);
+            assert_eq!(values.iter().count(), expected);
+        }
+
+        t::<i8, i32>(Values::new(&[0x05, 0x08]), 2);
+        t::<i8, i32>(Values::new(&[0x05, 0x80]), 2);
+        t::<i8, i32>(Values::new(&[0x05, 0x81]), 1);
+        t::<i16, i32>(Values::new(&[0x05, 0x00, 0x01, 0x80]), 1);
+        t::<i32, i32>(
+            Values::new(&[0x05, 0x00, 0x00, 0x00, 0x01, 0x00, 0x00, 0x80]),
+            1,
+        );
+        t::<f32, f32>(
+            Values::new(&[0x00, 0x00, 0x00, 0x00, 0x02, 0x00, 0x80, 0x7f]),
+            1,
+        );
     }
 }
